@@ -270,11 +270,15 @@ def add_tu_private_types(draw, m, ntu, cx):
     """Same C-level tag, different definitions in different translation units (legal C), each used by that TU's own
     exported function through a pointer / const pointer / by value / array."""
     ngroups = draw(st.integers(1, 2))
+    if draw(st.booleans()):
+        m["priv_in_header"] = True       # the variants are selected by a macro inside the shared header
     for g in range(ngroups):
         kind = _weighted(draw, [("struct", 6), ("enum", 2), ("union", 1)])
         cname = "pv%d" % g
         tus = sorted(set([0, 1] + [draw(st.integers(0, ntu - 1)) for _ in range(draw(st.integers(0, 2)))]))
         same_size_bias = draw(st.booleans())
+        prefix_pair = kind in ("struct", "union") and draw(st.integers(0, 2)) == 0
+        first_members = None
         for k in tus:
             mname = "%s_tu%d" % (cname, k)
             if kind == "enum":
@@ -282,9 +286,34 @@ def add_tu_private_types(draw, m, ntu, cx):
                      "enumerators": [["%s_T%d_E%d" % (cname.upper(), k, i), v] for i, (_, v) in
                                      enumerate(enumerators(draw, cname))]}
             else:
-                ms = members(draw, cx, "", 1, 4, 0, True, kind == "union")
-                if draw(st.integers(0, 2)) == 0:
-                    ms.append({"name": "next", "type": ["p", ["n", mname]], "bits": None})
+                if prefix_pair and first_members is None:
+                    # the later variants are proper prefixes of this one, with the same size (the dropped member sits in
+                    # what becomes tail padding, or is a smaller member of the union)
+                    ms = [{"name": "m0", "type": ["b", _pick(draw, ["long", "double", "unsigned long"])], "bits": None},
+                          {"name": "m1", "type": ["b", _pick(draw, ["int", "float", "unsigned int"])], "bits": None},
+                          {"name": "m2", "type": ["b", _pick(draw, ["int", "short", "char", "float"])], "bits": None}]
+                    first_members = ms
+                elif prefix_pair:
+                    ms = [dict(x) for x in first_members[:draw(st.integers(1, 2))]]
+                    if kind == "struct" and len(ms) == 1:
+                        ms = [dict(x) for x in first_members[:2]]
+                elif same_size_bias and first_members is not None and kind == "struct":
+                    # same layout, other member types: same name, same size, different type
+                    swap = {"int": "float", "float": "unsigned int", "unsigned int": "int", "long": "double", "double": "unsigned long",
+                            "unsigned long": "long", "short": "unsigned short", "unsigned short": "short", "char": "unsigned char",
+                            "unsigned char": "signed char", "signed char": "char", "long long": "double", "unsigned long long": "long"}
+                    ms = []
+                    for x in first_members:
+                        y = dict(x)
+                        if "anon" not in y and y.get("bits") is None and y["type"][0] == "b" and y["type"][1] in swap and draw(st.booleans()):
+                            y["type"] = ["b", swap[y["type"][1]]]
+                        ms.append(y)
+                else:
+                    ms = members(draw, cx, "", 1, 4, 0, True, kind == "union")
+                    if first_members is None:
+                        first_members = ms
+                    if draw(st.integers(0, 2)) == 0:
+                        ms.append({"name": "next", "type": ["p", ["n", mname]], "bits": None})
                 t = {"kind": kind, "name": mname, "cname": cname, "where": "tu%d" % k, "members": ms}
             m["types"].append(t)
             how = draw(st.integers(0, 4))
